@@ -1,7 +1,7 @@
 (* C11 correspondence: observed behaviour of an in-process frps (server/control.go, server/service.go,
    server/proxy/proxy.go; hand-off: pkg/util/vhost/vhost.go, server/group/tcp.go, tcpmux.go) driven by a
    scripted client, against Model/Pool.v. *)
-From FRP Require Export Corr.Common Model.Pool gen.GenSendLoop.
+From FRP Require Export Corr.Common Model.Pool Proofs.PoolProofs gen.GenSendLoop gen.GenAcceptPaths.
 Open Scope Z_scope.
 
 (* A phase: run the listed threads, each for the given number of its own steps (64 = "until it blocks or
@@ -18,12 +18,16 @@ Inductive case :=
         (conns : list (Z * Z))                     (* per work socket: 0 open+idle | 1 closed | 2+u bridged to user u *)
         (users : list (Z * Z))                     (* per user socket: 0 open, unserved | 1 closed | 2+c bridged to conn c *)
         (starts : list (Z * bytes * bytes * Z))  (* StartWorkConn read on conn: proxy name, src addr, src port *)
+        (flows : list (Z * Z))                     (* payload written by user u was seen (decoded) on work conn c *)
 | CHand (group : bool) (reqs : list hreq) (sched : list Z)
         (fates : list (Z * Z))                   (* per user socket: 1 accepted | 2 closed | 3 still open with no peer *)
 | CVis (cap : Z) (reqs : list ireq) (sched : list Z)
        (loop_ended : Z)                           (* the accept loop: 0 still running | 1 seen to return | 2 not observable: the
                                                      listener is closed and the real accept goroutine had its time *)
-       (fates : list (Z * Z)).                    (* per visitor socket: 1 handed to the handler | 2 closed | 3 open, unserved *)
+       (fates : list (Z * Z))                     (* per visitor socket: 1 handed to the handler | 2 closed | 3 open, unserved *)
+| CGroup (members : Z) (reqs : list greq) (sched : list Z)
+         (picks : list bool)                      (* how each select with closeCh and hand-off both ready resolved: true = hand-off *)
+         (fates : list (Z * Z)).                  (* per user socket: 10+m returned by member m's Accept | 2 closed | 3 open with no peer *)
 
 Definition sched_of (l : list (Z * Z)) : list nat :=
   List.concat (map (fun p => repeat (Z.to_nat (fst p)) (Z.to_nat (snd p))) l).
@@ -86,9 +90,24 @@ Definition vis_code (f : ifate) : Z :=
   | INoConn => 9
   end.
 
+Definition group_code (f : gfate) : Z :=
+  match f with
+  | GHandled m => 10 + Z.of_nat m
+  | GRefused | GClosedOnFail => 2
+  | GLost | GTaken _ => 3
+  | GNew | GPending => 8
+  | GNoConn => 9
+  end.
+
+(* the group model's two code-dependent flags, as today's source says *)
+Definition group_cfg (members : Z) (reqs : list greq) (picks : list bool) : gcfg :=
+  {| gc_reqs := reqs; gc_members := Z.to_nat members; gc_pick := fun k => nth k picks false;
+     gc_close_on_fail := h_code_closes_on_fail;
+     gc_recheck_drops := negb (group_accepts_ok gen_group_accepts) |}.
+
 Definition check_case (c : case) : Z :=
   match c with
-  | CPool cpc smax reqs dead wf phases torn conns users starts =>
+  | CPool cpc smax reqs dead wf phases torn conns users starts flows =>
       let cfg := cfg_of cpc smax reqs dead wf in
       let '(s, code) := run_phases cfg 1 phases (pl_init cfg) in
       if negb (code =? 0) then code
@@ -97,6 +116,7 @@ Definition check_case (c : case) : Z :=
       else if negb (forallb (start_matches s) starts) then 5
       else if negb (Z.of_nat (length (ps_log s)) =? Z.of_nat (length starts)) then 6
       else if negb (Bool.eqb torn (negb (ps_mapped s))) then 7
+      else if negb (forallb (fun p => user_code s (Z.to_nat (fst p)) =? 2 + snd p) flows) then 8
       else 0
   | CHand group reqs sched fates =>
       let cfg := if group then h_group_cfg reqs else h_vhost_cfg reqs in
@@ -111,6 +131,9 @@ Definition check_case (c : case) : Z :=
                       (existsb (fun t => match is_thr s t with Some ILEnd => true | _ => false end)
                                (seq 0 (length reqs)))) then 42
       else 0
+  | CGroup members reqs sched picks fates =>
+      let s := g_exec (group_cfg members reqs picks) (map Z.to_nat sched) in
+      if forallb (fun p => group_code (gs_fate s (Z.to_nat (fst p))) =? snd p) fates then 0 else 61
   end.
 
 (* ---- the property as a monitor on the observations alone (no model run) ---- *)
@@ -120,7 +143,7 @@ Fixpoint nodup_z (l : list Z) : bool :=
 
 Definition C11_holds (c : case) : Z :=
   match c with
-  | CPool cpc smax reqs dead wf phases torn conns users starts =>
+  | CPool cpc smax reqs dead wf phases torn conns users starts flows =>
       let pc := Z.max 0 (Z.min cpc smax) in
       (* pooled connections never exceed poolCount + 10 *)
       if negb (forallb (fun p : phase => snd p <=? pc + 10) phases) then 21
@@ -135,19 +158,23 @@ Definition C11_holds (c : case) : Z :=
                        existsb (fun q => (fst q =? snd p - 2) && (snd q =? 2 + fst p)) conns) users) then 25
       (* write-fault cases end after every user's timeout has been waited for: none may still be open *)
       else if (0 <=? wf) && existsb (fun p => snd p =? 0) users then 26
+      (* payload of user u shows up only on the work connection that was announced for u *)
+      else if negb (forallb (fun f => existsb (fun q => (fst q =? snd f) && (snd q =? 2 + fst f)) conns) flows) then 27
       else 0
   | CHand _ _ _ fates =>
       if existsb (fun p => snd p =? 3) fates then 31 else 0
   | CVis _ _ _ loop_ended fates =>
       (* once the accept loop has returned no visitor connection is left open and unserved *)
       if (1 <=? loop_ended) && existsb (fun p => snd p =? 3) fates then 51 else 0
+  | CGroup _ _ _ _ fates =>
+      if existsb (fun p => snd p =? 3) fates then 62 else 0
   end.
 
-Definition case_wfail (c : case) : bool := match c with CPool _ _ _ _ wf _ _ _ _ _ => 0 <=? wf | _ => false end.
-Definition is_pool (c : case) : bool := match c with CPool _ _ _ _ _ _ _ _ _ _ => true | _ => false end.
-Definition case_torn (c : case) : bool := match c with CPool _ _ _ _ _ _ t _ _ _ => t | _ => false end.
-Definition case_has_dead (c : case) : bool := match c with CPool _ _ _ (_ :: _) _ _ _ _ _ _ => true | _ => false end.
+Definition case_wfail (c : case) : bool := match c with CPool _ _ _ _ wf _ _ _ _ _ _ => 0 <=? wf | _ => false end.
+Definition is_pool (c : case) : bool := match c with CPool _ _ _ _ _ _ _ _ _ _ _ => true | _ => false end.
+Definition case_torn (c : case) : bool := match c with CPool _ _ _ _ _ _ t _ _ _ _ => t | _ => false end.
+Definition case_has_dead (c : case) : bool := match c with CPool _ _ _ (_ :: _) _ _ _ _ _ _ _ => true | _ => false end.
 Definition case_has_closed_user (c : case) : bool :=
-  match c with CPool _ _ _ _ _ _ _ _ us _ => existsb (fun p => snd p =? 1) us | _ => false end.
+  match c with CPool _ _ _ _ _ _ _ _ us _ _ => existsb (fun p => snd p =? 1) us | _ => false end.
 Definition case_has_bridged (c : case) : bool :=
-  match c with CPool _ _ _ _ _ _ _ _ us _ => existsb (fun p => 2 <=? snd p) us | _ => false end.
+  match c with CPool _ _ _ _ _ _ _ _ us _ _ => existsb (fun p => 2 <=? snd p) us | _ => false end.
